@@ -482,6 +482,11 @@ func c06Traced(ctx *rt.Ctx, big bool, n int, otherTmp bool) []*rt.Violation {
 		return r
 	}
 	full := filepath.Join(dir, "full.updog")
+	// is tracing possible here at all? (a sandbox may forbid ptrace: then this part is skipped and says so)
+	if _, err := ptk.Run([]string{bin, "schema", "-f", "/nonexistent"}, env, []string{dir + "/"}, 0, filepath.Join(dir, "stdout")); err != nil {
+		ctx.Cov.Cap("ptrace is not available in this environment (" + err.Error() + "): process-level crash points skipped")
+		return nil
+	}
 	r0 := run(full, 0)
 	if r0.ExitCode != 0 {
 		rt.Harnessf("traced complete run failed (exit %d): %s", r0.ExitCode, r0.Output)
